@@ -287,12 +287,15 @@ def drawBool (cfg : LosCfg) (los : List (Dict α)) (isZero : α → Bool) : Exce
         | none => .error "KeyError"
     | none => .ok false
 
+/-- one iteration of the loop in `PriorLikelihood.log_likelihood` -/
+def priorStep (kw : Dict α) (acc : α) (p : String × α × α) : α :=
+  match Dict.get? kw p.1 with
+  | some x => acc - (x - p.2.1) * (x - p.2.1) / (2.0 * (p.2.2 * p.2.2))
+  | none => acc
+
 /-- `PriorLikelihood.log_likelihood(kwargs)` -/
 def priorLogL (priors : List (String × α × α)) (kw : Dict α) : α :=
-  priors.foldl (fun acc p =>
-    match Dict.get? kw p.1 with
-    | some x => acc - (x - p.2.1) * (x - p.2.1) / (2.0 * (p.2.2 * p.2.2))
-    | none => acc) 0.0
+  priors.foldl (priorStep kw) 0.0
 
 /-- python `{**a, **b}` -/
 def mergeDict (a b : Dict α) : Dict α := b.foldl (fun d p => Dict.set d p.1 p.2) a
